@@ -10,6 +10,7 @@
  *        *<n>     writes of n bytes until the content is exhausted (last one shorter)
  *        R        one write of everything that is left (nothing if nothing is left)
  *        E        zck_end_chunk
+ *        O<m|n|x><v>  zck_set_ioption(ZCK_MANUAL_CHUNK | ZCK_CHUNK_MIN | ZCK_CHUNK_MAX, v) after data was written, then zck_clear_error
  * result line: OK n=<chunks after the dict chunk> lens=<l1,l2,..|-> | dict=<ulen> clens=.. dig=.. udig=.. size=<file size> file=<sha256 of the file>
  *              ERR <stage> | HANG <stage>
  */
@@ -44,6 +45,13 @@ static int do_ops(zckCtx *zck, const unsigned char *data, size_t n, char *ops) {
         if(strcmp(tok, "E") == 0) {
             stage = "end_chunk";
             if(zck_end_chunk(zck) < 0) return 1;
+        } else if(tok[0] == 'O') {
+            /* O<m|n|x><value>: a chunking option set in the middle of the stream (after data has been written): the library
+               refuses it; the caller clears the error and carries on - the produced file must not depend on it */
+            zck_ioption opt = tok[1] == 'm' ? ZCK_MANUAL_CHUNK : tok[1] == 'n' ? ZCK_CHUNK_MIN : ZCK_CHUNK_MAX;
+            stage = "late option";
+            (void)zck_set_ioption(zck, opt, atoll(tok + 2));
+            if(!zck_clear_error(zck)) return 1;
         } else if(strcmp(tok, "R") == 0) {
             stage = "write";
             if(n - pos > 0 && zck_write(zck, (const char*)data + pos, n - pos) != (ssize_t)(n - pos)) return 1;
